@@ -4,6 +4,7 @@
   what the harness observed on the real crate.
 -/
 import CachedModel.State
+import CachedModel.Ack
 
 namespace Cached
 
@@ -156,6 +157,158 @@ def parseCfg (toks : List String) : Option (Cfg × Nat × List Nat) :=
     | _ => none)
     ({ maxWeight := 0, shards := 2, cmdCap := 1, poolSize := 1, bufSize := 1, counters := 2 }, 0, [])
 
+-- ---------- acknowledgement slice (Layer B), lines `A <final status> <pollers> | <actions>` ----------
+
+def parseStatus? (t : String) : Option Status :=
+  match t with
+  | "pending" => some .pending
+  | "accepted" => some .accepted
+  | "shuttingdown" => some .shuttingDown
+  | "rejected:nospace" => some (.rejected .noSpace)
+  | "rejected:tooheavy" => some (.rejected .tooHeavy)
+  | "rejected:nokey" => some (.rejected .keyDoesNotExist)
+  | "rejected:exists" => some (.rejected .keyAlreadyExists)
+  | _ => none
+
+def parseAckAct? (t : String) : Option AckB.Act :=
+  match t.splitOn ":" with
+  | ["ss"] => some .setStatus
+  | ["sf"] => some .setFlag
+  | ["w"] => some .wake
+  | ["lr", p, w] => do pure (.lockRegister (← p.toNat?) (← w.toNat?))
+  | ["lf", p] => do pure (.loadFlag (← p.toNat?))
+  | ["fp", p] => do pure (.finishPoll (← p.toNat?))
+  | _ => none
+
+def AckB.PollResult.str : AckB.PollResult → String
+  | .pending => "pending"
+  | .ready s => "ready:" ++ s.str
+
+def AckB.CPc.str : AckB.CPc → String
+  | .beforeStatus => "beforeStatus"
+  | .beforeFlag => "beforeFlag"
+  | .beforeWake => "beforeWake"
+  | .finished => "finished"
+
+def AckB.St.str (s : AckB.St) : String :=
+  let results := joinWith "|" (s.pollers.map (fun q => joinWith "," (q.results.reverse.map AckB.PollResult.str)))
+  let wakes := joinWith "," (s.wakes.reverse.map toString)
+  s!"R ack results={results} wakes={wakes} flag={if s.flag then 1 else 0} status={s.status.str} slot={if s.lock.isSome then "-" else if s.slot.isSome then "1" else "0"} lock={optNatStr s.lock} cpc={s.cpc.str}"
+
+def driveAck (toks : List String) : String :=
+  match toks with
+  | final :: n :: "|" :: acts =>
+    (match parseStatus? final, n.toNat?, acts.mapM parseAckAct? with
+     | some f, some k, some as =>
+       (match AckB.run (AckB.init f k) as with
+        | some s => s.str
+        | none => "R ack illegal: an action of the schedule is not enabled in the model")
+     | _, _, _ => "R bad-ack-line")
+  | _ => "R bad-ack-line"
+
+-- ---------- pure components (Layer P), lines `P <function> <arguments>` ----------
+
+def hexVal (c : Char) : Option Nat :=
+  if '0' ≤ c ∧ c ≤ '9' then some (c.toNat - '0'.toNat)
+  else if 'a' ≤ c ∧ c ≤ 'f' then some (c.toNat - 'a'.toNat + 10)
+  else none
+
+def parseHexBytes : List Char → Option Row
+  | [] => some []
+  | a :: b :: rest => do
+    let x ← hexVal a
+    let y ← hexVal b
+    let tail ← parseHexBytes rest
+    pure (BitVec.ofNat 8 (x * 16 + y) :: tail)
+  | _ => none
+
+def optRowStr : Option Row → String
+  | some r => "row " ++ rowHex r
+  | none => "panic"
+
+def ExpiryUpdate.str : ExpiryUpdate → String
+  | .nothing => "nothing"
+  | .added n => s!"added:{n}"
+  | .deleted e => s!"deleted:{e}"
+  | .updated e n => s!"updated:{e}:{n}"
+
+def runFcOps (fc : FreqCounter) : List String → List Nat → Option (FreqCounter × List Nat)
+  | [], outs => some (fc, outs.reverse)
+  | op :: rest, outs =>
+    match op.splitOn ":" with
+    | ["r"] => runFcOps fc.reset rest outs
+    | ["e", h] => (match h.toNat? with
+        | some hv => (match fc.estimate hv with | some e => runFcOps fc rest (e :: outs) | none => none)
+        | none => none)
+    | ["i", h] => (match h.toNat? with
+        | some hv => (match fc.increment hv with | some fc' => runFcOps fc' rest outs | none => none)
+        | none => none)
+    | _ => none
+
+def runLfuOps (t : TinyLFU) : List String → List Nat → Except String (TinyLFU × List Nat)
+  | [], outs => .ok (t, outs.reverse)
+  | op :: rest, outs =>
+    match op.splitOn ":" with
+    | ["e", h, b] => (match h.toNat? with
+        | some hv =>
+          let ans := b == "1"
+          if !t.hasLegal hv ans then .error "illegal: doorkeeper false negative"
+          else (match t.estimate hv ans with | some e => runLfuOps t rest (e :: outs) | none => .error "panic")
+        | none => .error "bad")
+    | ["a", h, b] => (match h.toNat? with
+        | some hv =>
+          let added := b == "1"
+          if !t.addLegal hv added then .error "illegal: doorkeeper added a hash it already holds"
+          else (match t.incrementFor hv added with | some t' => runLfuOps t' rest outs | none => .error "panic")
+        | none => .error "bad")
+    | _ => .error "bad"
+
+def drivePure (toks : List String) : String :=
+  match toks with
+  | ["row.inc", hx, pos] =>
+    (match parseHexBytes hx.toList, pos.toNat? with
+     | some r, some p => "R " ++ optRowStr (r.incrementAt p)
+     | _, _ => "R bad-pure-line")
+  | ["row.get", hx, pos] =>
+    (match parseHexBytes hx.toList, pos.toNat? with
+     | some r, some p => (match r.getAt p with | some v => s!"R val {v}" | none => "R panic")
+     | _, _ => "R bad-pure-line")
+  | ["row.half", hx] => (match parseHexBytes hx.toList with | some r => "R row " ++ rowHex r.half | none => "R bad-pure-line")
+  | ["row.clear", hx] => (match parseHexBytes hx.toList with | some r => "R row " ++ rowHex r.clear | none => "R bad-pure-line")
+  | ["np2", c] => (match c.toNat? with | some n => s!"R val {nextPower2 n}" | none => "R bad-pure-line")
+  | ["cmp", w1, e1, w2, e2] =>
+    (match parseInt? w1, e1.toNat?, parseInt? w2, e2.toNat? with
+     | some a, some b, some c, some d =>
+       let k1 : SKey := { id := 1, weight := a, est := b }
+       let k2 : SKey := { id := 2, weight := c, est := d }
+       let o := match SKey.cmp k1 k2 with | .lt => "-1" | .eq => "0" | .gt => "1"
+       -- `PartialEq` of SampledKey is by id only: ids 1 and 2 differ, equal ids are equal
+       s!"R cmp {o} 0 1"
+     | _, _, _, _ => "R bad-pure-line")
+  | ["expiry", e, n] =>
+    (match parseOptNat? e, parseOptNat? n with
+     | some a, some b => "R expiry " ++ (typeOfExpiryUpdate a b).str
+     | _, _ => "R bad-pure-line")
+  | ["ratio", _, _] => "R ratio ok"
+  | "fc" :: counters :: seeds :: "|" :: ops =>
+    (match counters.toNat?, parseNatList? seeds with
+     | some c, some sd =>
+       let fc := FreqCounter.new c sd
+       (match runFcOps fc ops [] with
+        | some (fc', outs) =>
+          s!"R fc total={fc'.total} est={joinWith "," (outs.map toString)} rows={joinWith ";" (fc'.rows.map (fun p => rowHex p.2))}"
+        | none => "R panic")
+     | _, _ => "R bad-pure-line")
+  | "lfu" :: counters :: seeds :: "|" :: ops =>
+    (match counters.toNat?, parseNatList? seeds with
+     | some c, some sd =>
+       (match runLfuOps (TinyLFU.new c sd) ops [] with
+        | .ok (t, outs) =>
+          s!"R lfu incs={t.incs} est={joinWith "," (outs.map toString)} rows={joinWith ";" (t.fc.rows.map (fun p => rowHex p.2))}"
+        | .error m => "R " ++ m)
+     | _, _ => "R bad-pure-line")
+  | _ => "R bad-pure-line"
+
 structure DriverState where
   st : Option State := none
   broken : Bool := false     -- after an illegal oracle / event the rest of the case is skipped
@@ -166,6 +319,8 @@ def driveLine (d : DriverState) (line : String) : DriverState × Option String :
   match toks with
   | [] => (d, none)
   | "#" :: _ => (d, some line.trimAscii.toString)
+  | "A" :: rest => (d, some (driveAck rest))
+  | "P" :: rest => (d, some (drivePure rest))
   | "C" :: rest0 =>
     let rest := rest0.filter (fun t => !t.startsWith "#")
     (match parseCfg rest with
